@@ -179,6 +179,24 @@ fn parse_struct_internal(
                         context,
                     )?;
 
+                    // A struct is not complete inside its own definition so can not contain itself
+                    {
+                        let mut inner_id = context.module.type_registry.remove_modifier(type_id);
+                        while let ir::TypeLayer::Array(element_id, _) =
+                            context.module.type_registry.get_type_layer(inner_id)
+                        {
+                            inner_id = context.module.type_registry.remove_modifier(element_id);
+                        }
+                        if context.module.type_registry.get_type_layer(inner_id)
+                            == ir::TypeLayer::Struct(id)
+                        {
+                            return Err(TyperError::VariableHasIncompleteType(
+                                type_id,
+                                ast_member.ty.location,
+                            ));
+                        }
+                    }
+
                     // Ensure the name is unqualified
                     let name = match scoped_name.try_trivial() {
                         Some(name) => name,
